@@ -45,6 +45,9 @@ type MObj struct {
 	Kids   map[string]int
 	Parent int
 	Live   bool
+	// cached hash of Pages (reset by mut; see pagesHash)
+	pgHash   uint64
+	pgHashOK bool
 }
 
 type Limits struct {
@@ -156,9 +159,11 @@ func (m *Model) Clone() *Model {
 func (m *Model) mut(id int) *MObj {
 	o := m.Objs[id]
 	if m.owned[id] {
+		o.pgHashOK = false
 		return o
 	}
 	c := *o
+	c.pgHashOK = false
 	if o.Kids != nil {
 		c.Kids = make(map[string]int, len(o.Kids))
 		for k, v := range o.Kids {
@@ -290,6 +295,7 @@ func (m *Model) readRange(o *MObj, off, n uint64) []byte {
 }
 
 func (m *Model) writeRange(o *MObj, off uint64, data []byte) {
+	o.pgHashOK = false
 	n := uint64(len(data))
 	for i := uint64(0); i < n; {
 		pg := (off + i) / pageSz
@@ -309,6 +315,7 @@ func (m *Model) writeRange(o *MObj, off uint64, data []byte) {
 }
 
 func (m *Model) truncate(o *MObj, sz uint64) {
+	o.pgHashOK = false
 	if sz < o.Size {
 		for pg := range o.Pages {
 			if pg*pageSz >= sz {
@@ -490,7 +497,7 @@ func (m *Model) Step(in *In, out *Out) error {
 		if !out.ok() {
 			return mm("access of live object %s failed with status %d", m.PathOf(o), out.Status)
 		}
-		return nil
+		return m.checkAttr(in, out, o, "object")
 	case "fsinfo", "pathconf":
 		_, done, err := m.handleArg(in, out, in.Obj, "object")
 		if done {
